@@ -185,6 +185,33 @@ func (e *Engine) intrinsic(s *State, f *Frame, call *ssa.Call, fn *ssa.Function,
 		set(TupleV{I64(0), IfaceV{}})
 		return true
 	case "encoding/hex.EncodeToString":
+		sl := args[0].(SliceV)
+		if _, conc := cint(sl.Len); !conc && sl.Obj != 0 {
+			// symbolic length with few feasible values: one path per length
+			vals, complete := e.enumValues(s, sl.Len, 8)
+			if !complete {
+				unsupp("hex.EncodeToString of a slice whose length has more than 8 feasible values")
+			}
+			if len(vals) == 0 {
+				s.Status = "infeasible"
+				return true
+			}
+			for i, v := range vals {
+				st := s
+				if i > 0 {
+					st = s.Clone()
+				}
+				st.PC = append(st.PC, Eq(sl.Len, I64(v)))
+				pinned := sl
+				pinned.Len = I64(v)
+				e.setResult(st, call, mkStr(hexCells(e.bytesOfSlice(st, pinned))))
+				if i > 0 {
+					e.Pending = append(e.Pending, st)
+				}
+			}
+			s.top()
+			return true
+		}
 		cells := e.bytesOfSlice(s, args[0])
 		set(mkStr(hexCells(cells)))
 		return true
@@ -358,10 +385,28 @@ func (e *Engine) intrinsic(s *State, f *Frame, call *ssa.Call, fn *ssa.Function,
 		set(nil)
 		return true
 	case "(*sync.Once).Do":
+		// Once{done atomic.Uint32{_ noCopy; v uint32}; m Mutex}: run f the first time only
 		p := args[0].(PtrV)
+		if p.Obj == 0 {
+			e.panicNow(s, "nil pointer dereference (sync.Once)", in)
+			return true
+		}
 		donep := PtrV{Obj: p.Obj, Path: extendPath(extendPath(p.Path, PathElem{Idx: 0}), PathElem{Idx: 1})}
-		_ = donep
-		unsupp("sync.Once.Do")
+		dv, ok := e.load(s, donep).(*Term)
+		if !ok || dv.Sort.Width != 32 {
+			unsupp("sync.Once layout not recognised")
+		}
+		c, conc := cint(dv)
+		if !conc {
+			unsupp("sync.Once with symbolic state")
+		}
+		set(nil)
+		if c == 0 {
+			e.store(s, donep, BVInt(1, 32))
+			fv := args[1].(FuncV)
+			e.invokeValue(s, s.top(), nil, fv, nil, in)
+		}
+		return true
 	case "time.Now":
 		e.Stubs["time.Now: arbitrary instant (symbolic seconds)"] = true
 		sec := Fresh("now", BV(64))
@@ -369,6 +414,11 @@ func (e *Engine) intrinsic(s *State, f *Frame, call *ssa.Call, fn *ssa.Function,
 		e.assume(s, And(BVCmp("bvsge", sec, I64(0)), BVCmp("bvslt", sec, BVInt(1<<40, 64))))
 		loc := e.globalPtr(s, "time", "localLoc")
 		set(&StructV{F: []Value{BVInt(0, 64), BVBin("bvadd", sec, BVInt(62135596800, 64)), loc}})
+		return true
+	case "time.After":
+		e.Stubs["time.After: a channel that may fire"] = true
+		id := e.alloc(s, &StructV{})
+		set(ChanV{Obj: id})
 		return true
 	case "time.Sleep":
 		set(nil)
